@@ -24,6 +24,7 @@
 //!   (case cmap xCMAP xTEXT)                          get_font_encoding (ToUnicode) + Document::decode_text
 //!   (case textstr xBYTES)                            decode_text_string
 //!   (case load xFILE) | (case incload xFILE)         Document::load_mem | IncrementalDocument::load_from
+//!   (case loadtext xFILE)                            Document::load_mem, then extract_text + extract_text_chunks of every page
 //! Result:  (r <class> (m MAXREQ LEN))   class = (ok N) | (err) | (panic) | (timeout) | (abort alloc|stack|sigN)
 //!   N = size of the result (decoded bytes, operations, objects, xref entries, characters).
 //! Verdict: ok | FAIL <class> ... | FAIL alloc ...  (the direct evaluation of the property).
@@ -254,6 +255,31 @@ fn run_case(x: &Sx, go: &dyn Fn()) -> (Out, usize) {
             go();
             (match Document::load_mem(&b) { Ok(d) => Out::Ok(d.objects.len()), Err(_) => Out::Err }, l)
         }
+        "loadtext" => {
+            // load, then the text of every page (get_font_encoding + decode_text through the page's fonts)
+            let b = need!(bytes(1));
+            let l = b.len();
+            go();
+            let d = match Document::load_mem(&b) {
+                Ok(d) => d,
+                Err(_) => return (Out::Err, l),
+            };
+            let pages: Vec<u32> = d.get_pages().keys().cloned().collect();
+            let mut n = 0;
+            let mut failed = false;
+            for p in pages {
+                match d.extract_text(&[p]) {
+                    Ok(t) => n += t.encode_utf16().count(),
+                    Err(_) => failed = true,
+                }
+                for chunk in d.extract_text_chunks(&[p]) {
+                    if let Ok(t) = chunk {
+                        n += t.encode_utf16().count();
+                    }
+                }
+            }
+            (if failed { Out::Err } else { Out::Ok(n) }, l)
+        }
         "incload" => {
             let b = need!(bytes(1));
             let l = b.len();
@@ -376,7 +402,7 @@ fn spawn_kid() -> Kid {
 fn alloc_bound(kind: &str, l: usize) -> usize {
     let (k, c): (usize, usize) = match kind {
         // deflate expands by at most 1032:1, Vec doubling by 2
-        "stream" | "load" | "incload" | "objstm" | "xrefstm" => (4096, (1 << 20) + (1 << 24)),
+        "stream" | "load" | "loadtext" | "incload" | "objstm" | "xrefstm" => (4096, (1 << 20) + (1 << 24)),
         "pred" => (4096, 1 << 20),
         _ => (64, 1 << 20),
     };
